@@ -57,3 +57,140 @@ def is_consistent_extension(G: Arr2, P: Arr2) -> Bool:
     ensures(result == (all(iff(vs(P, a, c, b), vs(G, a, c, b)) for a in range(len(P)) for c in range(len(P)) for b in range(len(P)))
                        and all(iff(adjacent(P, a, b), adjacent(G, a, b)) for a in range(len(P)) for b in range(len(P)))
                        and all(implies(dedge(P, a, b), G[a, b] != 0) for a in range(len(P)) for b in range(len(P)))))
+
+
+# ---- wrappers around the equivalence-class algorithms.  The contracts of the deep algorithms (pdag_to_dag, dag_to_cpdag,
+# ---- all_dags, maximally_orient ...) are *assumed* here and decided only by the bounded stand-in (vkb.c07..c10).
+
+@opaque
+def has_extension(P):
+    """the PDAG admits a consistent extension (concrete: brute force over orientations)"""
+    return len(extensions_of(P)) > 0
+
+
+@contract("sempler.utils.pdag_to_dag")
+def pdag_to_dag(P: Arr2) -> Arr2:
+    requires(pdag_ok(P))
+    raises(ValueError, when=not has_extension(P))
+    ensures(is_extension_of(result, P), square(result), len(result) == len(P), acyclic(result))
+    fresh(result)
+
+
+@contract("sempler.utils.has_consistent_extension")
+def has_consistent_extension(pdag: Arr2) -> Bool:
+    requires(pdag_ok(pdag))
+    ensures(result == has_extension(pdag))
+
+
+@contract("sempler.utils.dag_to_icpdag")
+def dag_to_icpdag(G: Arr2, I: SetOf(Int)) -> Arr2:
+    requires(square(G), acyclic(G), all(node(i, G) for i in I))
+    ensures(is_icpdag_of(result, G, I), pdag_ok(result), binary(result), len(result) == len(G))
+    fresh(result)
+
+
+@contract("sempler.utils.pdag_to_icpdag")
+def pdag_to_icpdag(P: Arr2, I: SetOf(Int)) -> Arr2:
+    requires(pdag_ok(P), all(node(i, P) for i in I))
+    # ValueError for undirected edges at a target (checked first), or when no consistent extension exists
+    raises(ValueError, when=any(i in I and any(uedge(P, i, x) for x in range(len(P))) for i in range(len(P))) or not has_extension(P))
+
+
+@invariant("sempler.utils.pdag_to_icpdag", loop=1)
+def _pti(P, I):
+    holds(all(implies(i in _done1, not any(uedge(P, i, x) for x in range(len(P)))) for i in range(len(P))))
+
+
+@contract("sempler.utils.chain_graph")
+def chain_graph(p: Int) -> Arr2:
+    requires(p >= 1)
+    ensures(defines(result, array_of(p, p, lambda i, j: 1.0 if j == i + 1 else 0.0)))
+    fresh(result)
+
+
+@contract("sempler.utils.is_chain_graph")
+def is_chain_graph(A: Arr2) -> Bool:
+    requires(square(A), len(A) >= 1)
+    # exactly the matrix of the chain 0 -> 1 -> ... -> p-1 with unit entries (a weighted chain is not taken for the shortcut)
+    ensures(result == all(A[i, j] == (1 if j == i + 1 else 0) for i in range(len(A)) for j in range(len(A))))
+
+
+@opaque
+def enumerates_mec(R, A):
+    """R lists the Markov equivalence class of the DAG A, each member once (concrete: brute force)"""
+    return same_graph_set(R, mec_of(A))
+
+
+@opaque
+def enumerates_imec(R, A, I):
+    return same_graph_set(R, imec_of(A, I))
+
+
+@opaque
+def enumerates_extensions(R, P):
+    return same_graph_set(R, extensions_of(P))
+
+
+@opaque
+def is_cpdag_of(C, A):
+    return same_pattern(C, union_graph(mec_of(A)))
+
+
+@opaque
+def is_icpdag_of(C, A, I):
+    return same_pattern(C, union_graph(imec_of(A, I)))
+
+
+@contract("sempler.utils.dag_to_cpdag")
+def dag_to_cpdag(G: Arr2) -> Arr2:
+    requires(square(G), acyclic(G))
+    ensures(is_cpdag_of(result, G), pdag_ok(result), binary(result), len(result) == len(G))
+    fresh(result)
+
+
+@contract("sempler.utils.all_dags")
+def all_dags(pdag: Arr2) -> Arr3:
+    requires(pdag_ok(pdag), graph(pdag))
+    ensures(enumerates_extensions(result, pdag))
+    fresh(result)
+
+
+@contract("sempler.utils.chain_graph_MEC")
+def chain_graph_MEC(p: Int) -> Arr3:
+    requires(p >= 1)
+    ensures(enumerates_mec(result, array_of(p, p, lambda i, j: 1.0 if j == i + 1 else 0.0)))
+    fresh(result)
+
+
+@contract("sempler.utils.chain_graph_IMEC")
+def chain_graph_IMEC(A: Arr2, I: SetOf(Int)) -> Arr3:
+    requires(square(A), len(A) >= 1, all(node(i, A) for i in I))
+    raises(ValueError, when=not all(A[i, j] == (1 if j == i + 1 else 0) for i in range(len(A)) for j in range(len(A))))
+    ensures(enumerates_imec(result, A, I))
+    fresh(result)
+
+
+@contract("sempler.utils.mec", cases={'check_chain': [True, False]})
+def mec(A: Arr2) -> Arr3:
+    requires(square(A), len(A) >= 1)
+    raises(ValueError, when=not acyclic(A))
+    # L-CHICK (cited): the consistent extensions of the CPDAG of A are exactly A's Markov equivalence class
+    hint(implies(is_cpdag_of(cpdag, A) and enumerates_extensions(result, cpdag), enumerates_mec(result, A)), at='return')
+    ensures(enumerates_mec(result, A))
+
+
+@contract("sempler.utils.imec", cases={'check_chain': [True, False]})
+def imec(A: Arr2, I: SetOf(Int)) -> Arr3:
+    requires(square(A), len(A) >= 1)
+    raises(ValueError, when=not acyclic(A) or not all(implies(i in I, 0 <= i and i < len(A)) for i in I))
+    hint(implies(is_icpdag_of(icpdag, A, I) and enumerates_extensions(result, icpdag), enumerates_imec(result, A, I)), at='return')
+    ensures(enumerates_imec(result, A, I))
+
+
+@contract("sempler.utils.pdag_to_cpdag")
+def pdag_to_cpdag(pdag: Arr2) -> Arr2:
+    requires(pdag_ok(pdag))
+    raises(ValueError, when=not has_extension(pdag))
+    # the essential graph of the class of the extension found (L-CHICK: every extension of a PDAG lies in one class)
+    ensures(any_extension_cpdag(result, pdag))
+    hint(implies(is_extension_of(dag, pdag) and is_cpdag_of(result, dag), any_extension_cpdag(result, pdag)), at='return')
